@@ -184,12 +184,14 @@ def replay(beh, workdir, seed, stats):
         ro = real[i]
         try:
             if op in ('copy', 'deepcopy'):
+                # molecules: also the form with explicit residues (here: the molecule's own), which must be copied as well
+                explicit = so['kind'] == 'mol' and (seed + step) % 4 == 1
                 if op == 'deepcopy':
-                    new = ro.deep_copy()
+                    new = ro.deep_copy(ro.residues) if explicit else ro.deep_copy()
                 elif so['kind'] == 'mol' and (seed + step) % 3 == 0:
                     new = Alignment(start=ro).start            # the copy an Alignment stores
                 else:
-                    new = ro.copy()
+                    new = ro.copy(ro.residues) if explicit else ro.copy()
                 real.append(new)
                 sn = sobjs[h['new'] - 1]
                 for a in range(len(sn['cells'])):
